@@ -4,12 +4,12 @@
 # demo passes without the patch, repo tests pass with it, demo fails with it. Then runs our quick check against it
 # (tools/mutant_run.sh) and files everything under /verif/seeded/<Cxx>/. Removes the scratch worktree.
 set -u
-id="$1"; out="/tmp/seed-$id-out"; src="/tmp/seed-$id"
+id="$1"; pre="${SEED_PREFIX:-seed}"; suffix="${SEED_SUFFIX:-}"; out="/tmp/$pre-$id-out"; src="/tmp/$pre-$id"
 demo_rel="${2:-}"
 if [ -z "$demo_rel" ]; then for c in examples/seed_demo.rs tests/seed_demo.rs; do [ -f "$src/$c" ] && demo_rel="$c"; done; fi
 [ -f "$out/patch.diff" ] || { echo "no patch"; exit 2; }
 [ -n "$demo_rel" ] || { echo "no demo found"; exit 2; }
-wt="/tmp/vseed-$id"; rm -rf "$wt"; git -C /repo worktree prune
+wt="/tmp/vseed-$id$suffix"; rm -rf "$wt"; git -C /repo worktree prune
 git -C /repo worktree add --detach "$wt" HEAD -q || exit 2
 trap 'git -C /repo worktree remove --force "$wt" 2>/dev/null; rm -rf "$wt"' EXIT
 mkdir -p "$wt/$(dirname "$demo_rel")"; cp "$src/$demo_rel" "$wt/$demo_rel"
@@ -22,20 +22,20 @@ run_demo "$wt/demo_without.log"; without=$?
 tests_line=$(grep -E "^test result" "$wt/tests.log" | head -1)
 run_demo "$wt/demo_with.log"; with=$?
 echo "SEED $id: demo without patch exit=$without ; repo tests with patch exit=$tests ($tests_line) ; demo with patch exit=$with"
-dest="/verif/seeded/$id"; mkdir -p "$dest"
+dest="/verif/seeded/$id$suffix"; mkdir -p "$dest"
 cp "$out/patch.diff" "$dest/patch.diff"; cp "$src/$demo_rel" "$dest/$(basename "$demo_rel")"; [ -f "$out/notes.md" ] && cp "$out/notes.md" "$dest/notes.md"
 tail -5 "$wt/demo_with.log" > "$dest/demo_with_patch.tail.txt"; tail -3 "$wt/demo_without.log" > "$dest/demo_without_patch.tail.txt"
 git -C /repo worktree remove --force "$wt" 2>/dev/null; rm -rf "$wt"; trap - EXIT
 check_out=$(MUT_TARGET=/tmp/mut-target-seed ${SEED_ENV:-} /verif/tools/mutant_run.sh "$dest/patch.diff" "${CHECK_PROP:-$id}" "${TIER:-quick}" 2>&1)
 echo "$check_out"
-python3 - "$id" "$without" "$tests" "$with" "$demo_rel" "$tests_line" <<PY
+python3 - "$id" "$without" "$tests" "$with" "$demo_rel" "$tests_line" "$suffix" <<PY
 import json, sys, re
-id_, without, tests, with_, demo, tl = sys.argv[1:7]
+id_, without, tests, with_, demo, tl, suffix = sys.argv[1:8]
 co = """$check_out"""
 m = re.search(r"exit=(\d+) signatures=(\d+)", co)
 meta = {"property": id_, "demo": demo.split("/")[-1], "confirmed": {"demo_passes_without_patch": without == "0", "repo_tests_pass_with_patch": tests == "0", "repo_tests_line": tl, "demo_fails_with_patch": with_ != "0"},
-        "our_check": {"command": "tools/mutant_run.sh seeded/%s/patch.diff %s quick" % (id_, id_), "exit": int(m.group(1)) if m else None, "distinct_signatures": int(m.group(2)) if m else None,
+        "our_check": {"command": "tools/mutant_run.sh seeded/%s%s/patch.diff %s quick" % (id_, suffix, id_), "exit": int(m.group(1)) if m else None, "distinct_signatures": int(m.group(2)) if m else None,
                       "signatures": sorted(set(re.findall(r"signature: (.*)", co)))[:8]},
         "needs_to_manifest": "see notes.md"}
-json.dump(meta, open("/verif/seeded/%s/meta.json" % id_, "w"), indent=1)
+json.dump(meta, open("/verif/seeded/%s%s/meta.json" % (id_, suffix), "w"), indent=1)
 PY
